@@ -154,8 +154,10 @@ pub fn gen_case(rng: &mut Rng, kind: &str) -> Value {
         "cap": cap, "costs": costs, "obj": obj, "tour": tour,
     });
     if kind == "single" {
-        let dem = match rng.below(6) {
+        let dem = match rng.below(7) {
             0 => Value::Null,
+            // mixed shape (core API only): static delivery together with a dynamic pickup in one activity
+            6 => json!([zero(dims), rnd_load(rng, dims, 3), rnd_load(rng, dims, 3), zero(dims)]),
             1 | 2 => json!([rnd_load(rng, dims, 3), zero(dims), zero(dims), zero(dims)]),
             3 | 4 => json!([zero(dims), zero(dims), rnd_load(rng, dims, 3), zero(dims)]),
             _ => {
